@@ -405,6 +405,9 @@ theorem bindingTailP_safe {after : List Trivia} (h : TrivOk after) (i : Nat) :
 
 /-! ### expressions without line comments -/
 
+/-- no comment of the list is a line comment -/
+def lineFreeC (cs : List Comment) : Prop := ∀ c ∈ cs, c.kind ≠ .line
+
 mutual
 /-- no line comment anywhere in the expression -/
 def Expr.lineFreeE : Expr → Prop
@@ -412,6 +415,8 @@ def Expr.lineFreeE : Expr → Prop
   | .list v _ inner b a => allLineFree v ∧ lineFree inner ∧ lineFree b ∧ lineFree a
   | .set v _ _ inner b a => allLineFree v ∧ lineFree inner ∧ lineFree b ∧ lineFree a
   | .binding _ v _ b a => v.lineFreeE ∧ lineFree b ∧ lineFree a
+  | .paren v _ _ _ _ b a => v.lineFreeE ∧ lineFree b ∧ lineFree a
+  | .app n x _ fa b a => n.lineFreeE ∧ x.lineFreeE ∧ lineFreeC fa ∧ lineFree b ∧ lineFree a
 def allLineFree : List Expr → Prop
   | [] => True
   | e :: rest => e.lineFreeE ∧ allLineFree rest
@@ -452,6 +457,24 @@ theorem noLineL_recLex (r : Bool) : noLineL (recLex r) := by
   · exact noLineL_nil
   · exact noLineL_tok _
 
+theorem noLineL_cmC {cs : List Comment} (hok : ∀ c ∈ cs, cOk c) (h : lineFreeC cs) : noLineL (cmC cs) := by
+  intro s hs
+  simp only [cmC, List.mem_map] at hs
+  obtain ⟨c, hc, hcs⟩ := hs
+  injection hcs with hcs; subst hcs
+  cases hl : isLineTok (c.token 0) with
+  | false => rfl
+  | true => exact absurd (token_head (hok c hc) 0 hl) (h c hc)
+
+theorem lineFreeE_after {e : Expr} (h : e.lineFreeE) : lineFree e.after := by
+  cases e with
+  | leaf k t b a => exact h.2
+  | list v m inn b a => exact h.2.2.2
+  | set v m r inn b a => exact h.2.2.2
+  | binding n v g b a => exact h.2.2
+  | paren v lg tg lb tb b a => exact h.2.2
+  | app n x g fa b a => exact h.2.2.2.2
+
 mutual
 theorem lexOut_noLine : (e : Expr) → e.ok → e.lineFreeE → ∀ na, noLineL (e.lexOut na)
   | .leaf k t b a, hok, hf, na => by
@@ -471,12 +494,7 @@ theorem lexOut_noLine : (e : Expr) → e.ok → e.lineFreeE → ∀ na, noLineL 
         (lexOutAll_noLine v hok.1 hf.1)⟩, noLineL_tok _⟩,
       noLineL_ite _ noLineL_nil (noLineL_cm hok.2.2.2 hf.2.2.2)⟩
   | .binding n v g b a, hok, hf, na => by
-    have hva : lineFree v.after := by
-      cases v with
-      | leaf k t b' a' => exact hf.1.2
-      | list v' m inn b' a' => exact hf.1.2.2.2
-      | set v' m r inn b' a' => exact hf.1.2.2.2
-      | binding n' v' g' b' a' => exact hf.1.2.2
+    have hva : lineFree v.after := lineFreeE_after hf.1
     simp only [Expr.lexOut]
     refine noLineL_append.mpr ⟨noLineL_append.mpr ⟨noLineL_append.mpr ⟨noLineL_append.mpr
       ⟨noLineL_cm hok.2.2.1 hf.2.1, ?_⟩, lexOut_noLine v hok.2.1 hf.1 true⟩, noLineL_tok _⟩, ?_⟩
@@ -484,6 +502,16 @@ theorem lexOut_noLine : (e : Expr) → e.ok → e.lineFreeE → ∀ na, noLineL 
     · rw [cm_append]
       exact noLineL_append.mpr ⟨noLineL_cm (ok_after hok.2.1) hva,
         by split; exact noLineL_nil; exact noLineL_cm hok.2.2.2 hf.2.2⟩
+  | .paren v lg tg lb tb b a, hok, hf, na => by
+    simp only [Expr.lexOut]
+    exact noLineL_append.mpr ⟨noLineL_append.mpr ⟨noLineL_append.mpr ⟨noLineL_append.mpr
+      ⟨noLineL_cm hok.2.1 hf.2.1, noLineL_tok _⟩, lexOut_noLine v hok.1 hf.1 false⟩, noLineL_tok _⟩,
+      noLineL_ite _ noLineL_nil (noLineL_cm hok.2.2 hf.2.2)⟩
+  | .app n x g fa b a, hok, hf, na => by
+    simp only [Expr.lexOut]
+    exact noLineL_append.mpr ⟨noLineL_append.mpr ⟨noLineL_append.mpr ⟨noLineL_append.mpr
+      ⟨noLineL_cm hok.2.2.2.1 hf.2.2.2.1, lexOut_noLine n hok.1 hf.1 false⟩, noLineL_cmC hok.2.2.1 hf.2.2.1⟩,
+      lexOut_noLine x hok.2.1 hf.2.1 false⟩, noLineL_ite _ noLineL_nil (noLineL_cm hok.2.2.2.2 hf.2.2.2.2)⟩
 theorem lexOutAll_noLine : (es : List Expr) → allOk es → allLineFree es → noLineL (lexOutAll es)
   | [], _, _ => noLineL_nil
   | e :: rest, hok, hf => by
@@ -513,6 +541,12 @@ def Expr.notBinding : Expr → Bool
   | .binding .. => false
   | _ => true
 
+/-- the comments after the function of a call: all `inline`, only the last one may be a line comment -/
+def fnOk : List Comment → Prop
+  | [] => True
+  | [c] => c.inline = true
+  | c :: d :: rest => c.inline = true ∧ c.kind ≠ .line ∧ fnOk (d :: rest)
+
 mutual
 /-- multiline flags are consistent with the comments inside: a container written on one line has no
     line comment inside; the value of a binding is not a binding -/
@@ -521,6 +555,14 @@ def Expr.mlSafe : Expr → Prop
   | .list v ml _ _ _ => allMlSafe v ∧ (ml = false → allLineFree v)
   | .set v ml _ _ _ _ => allMlSafe v ∧ (ml = false → allLineFree v)
   | .binding _ v _ _ _ => v.mlSafe ∧ v.notBinding = true
+  -- a closing parenthesis on the row the value ends on: no line comment trails the value
+  | .paren v _ tg _ _ _ _ =>
+    v.mlSafe ∧ v.notBinding = true ∧ ((Layout.fromGap tg).onNewline = false → lineFree v.after)
+  -- function and argument carry no trailing trivia of their own; an argument on the function's row:
+  -- no line comment between them
+  | .app n x g fa _ _ =>
+    n.mlSafe ∧ x.mlSafe ∧ n.notBinding = true ∧ x.notBinding = true ∧ n.after = [] ∧ x.after = [] ∧ fnOk fa ∧
+      ((Layout.fromGap g).onNewline = false → lineFreeC fa)
 def allMlSafe : List Expr → Prop
   | [] => True
   | e :: rest => e.mlSafe ∧ allMlSafe rest
@@ -689,15 +731,37 @@ theorem multilineBlockP_endsTok (bp op body : List FP) (closer : Char) (i : Nat)
   unfold multilineBlockP
   exact endsTok_append _ (endsTok_cons _ (endsTok_single _))
 
-/-- rendered without its trailing trivia, a value ends with a token -/
-theorem noAfter_ends_tok {e : Expr} (hok : e.ok) (hnb : e.notBinding = true) (i : Nat) (b : Bool) :
-    ∃ t, EndsTok (e.rebuildAP true i b) t ∧ solidT t := by
+theorem rebuildAP_after_nil {e : Expr} (h : e.after = []) (i : Nat) (b : Bool) :
+    e.rebuildAP false i b = e.rebuildAP true i b := by
   cases e with
-  | leaf k t bf af =>
+  | leaf k t bf af => simp only [Expr.after] at h; subst h; simp [Expr.rebuildAP]
+  | list v ml inner bf af => simp only [Expr.after] at h; subst h; cases v <;> simp [Expr.rebuildAP]
+  | set v ml r inner bf af => simp only [Expr.after] at h; subst h; cases v <;> simp [Expr.rebuildAP]
+  | binding n v g bf af => simp only [Expr.after] at h; subst h; simp [Expr.rebuildAP]
+  | paren v lg tg lb tb bf af => simp only [Expr.after] at h; subst h; simp [Expr.rebuildAP]
+  | app n x g fa bf af => simp only [Expr.after] at h; subst h; simp [Expr.rebuildAP]
+
+/-- the argument of a call is rendered last and carries no trailing trivia -/
+def Expr.tailOk : Expr → Prop
+  | .app _ x _ _ _ _ => x.after = [] ∧ x.notBinding = true ∧ x.tailOk
+  | _ => True
+
+theorem mlSafe_tailOk : (e : Expr) → e.mlSafe → e.tailOk
+  | .leaf .., _ => trivial
+  | .list .., _ => trivial
+  | .set .., _ => trivial
+  | .binding .., _ => trivial
+  | .paren .., _ => trivial
+  | .app _ x _ _ _ _, h => ⟨h.2.2.2.2.2.1, h.2.2.2.1, mlSafe_tailOk x h.2.1⟩
+
+/-- rendered without its trailing trivia, a value ends with a token -/
+theorem noAfter_ends_tok : (e : Expr) → e.ok → e.tailOk → e.notBinding = true → ∀ (i : Nat) (b : Bool),
+    ∃ t, EndsTok (e.rebuildAP true i b) t ∧ solidT t
+  | .leaf k t bf af, hok, _, _, i, b => by
     refine ⟨t, ?_, hok.1⟩
     simp only [Expr.rebuildAP, addTriviaP, if_true, trailP_nil]
     exact endsTok_append_nil (endsTok_append _ (endsTok_single _))
-  | list v ml inner bf af =>
+  | .list v ml inner bf af, _, _, _, i, b => by
     refine ⟨[']'], ?_, solidT_lit ']' (by decide)⟩
     cases v with
     | nil =>
@@ -710,7 +774,7 @@ theorem noAfter_ends_tok {e : Expr} (hok : e.ok) (hnb : e.notBinding = true) (i 
       split
       · exact endsTok_append_nil (endsTok_append _ (multilineBlockP_endsTok ..))
       · exact endsTok_append_nil (endsTok_append _ (endsTok_cons _ (endsTok_single _)))
-  | set v ml r inner bf af =>
+  | .set v ml r inner bf af, _, _, _, i, b => by
     refine ⟨['}'], ?_, solidT_lit '}' (by decide)⟩
     cases v with
     | nil =>
@@ -725,7 +789,101 @@ theorem noAfter_ends_tok {e : Expr} (hok : e.ok) (hnb : e.notBinding = true) (i 
       · exact endsTok_append_nil (multilineBlockP_endsTok ..)
       · simp only [addTriviaP, trailP_nil]
         exact endsTok_append_nil (endsTok_append _ (endsTok_append _ (endsTok_cons _ (endsTok_single _))))
+  | .binding n v g bf af, _, _, hnb, _, _ => by cases hnb
+  | .paren v lg tg lb tb bf af, _, _, _, i, b => by
+    refine ⟨[')'], ?_, solidT_lit ')' (by decide)⟩
+    simp only [Expr.rebuildAP, addTriviaP, if_true, trailP_nil]
+    exact endsTok_append_nil (endsTok_append _ (endsTok_cons _ (endsTok_append _ (endsTok_single _))))
+  | .app n x g fa bf af, hok, hml, _, i, b => by
+    obtain ⟨hxa, hxnb, hxm⟩ := hml
+    simp only [Expr.rebuildAP, addTriviaP, if_true, trailP_nil]
+    generalize (Layout.fromGap g).onNewline = on
+    generalize (if on = true then (Layout.fromGap g).indent.getD (i + 2) else i) = ai
+    obtain ⟨t, ht, hst⟩ := noAfter_ends_tok x hok.2.1 hxm hxnb ai (!on)
+    rw [← rebuildAP_after_nil hxa] at ht
+    refine ⟨t, ?_, hst⟩
+    refine endsTok_append_nil (endsTok_append _ (endsTok_append _ (endsTok_cons _ ?_)))
+    split
+    · exact endsTok_cons _ ht
+    · exact ht
+
+/-- the trailing trivia are rendered last -/
+theorem rebuildAP_split {e : Expr} (hnb : e.notBinding = true) (i : Nat) (b : Bool) :
+    e.rebuildAP false i b = e.rebuildAP true i b ++ trailP e.after i := by
+  cases e with
+  | leaf k t bf af => simp [Expr.rebuildAP, addTriviaP, trailP_nil, Expr.after]
+  | list v ml inner bf af =>
+    cases v with
+    | nil => simp only [Expr.rebuildAP, Expr.after, if_true, trailP_nil, Bool.false_eq_true, if_false]; split <;> simp
+    | cons x xs => simp only [Expr.rebuildAP, Expr.after, if_true, trailP_nil, Bool.false_eq_true, if_false]; split <;> simp
+  | set v ml r inner bf af =>
+    cases v with
+    | nil =>
+      simp only [Expr.rebuildAP, Expr.after, if_true, trailP_nil, Bool.false_eq_true, if_false, addTriviaP]
+      split <;> simp
+    | cons x xs =>
+      simp only [Expr.rebuildAP, Expr.after, if_true, trailP_nil, Bool.false_eq_true, if_false, addTriviaP]
+      split <;> simp
   | binding n v g bf af => cases hnb
+  | paren v lg tg lb tb bf af => simp [Expr.rebuildAP, addTriviaP, trailP_nil, Expr.after]
+  | app n x g fa bf af => simp [Expr.rebuildAP, addTriviaP, trailP_nil, Expr.after]
+
+/-- an expression without trailing trivia ends closed -/
+theorem closed_of_after_nil {e : Expr} (hok : e.ok) (hml : e.mlSafe) (hnb : e.notBinding = true) (ha : e.after = [])
+    (i : Nat) (b : Bool) : openAfter false (e.rebuildAP false i b) = false := by
+  obtain ⟨t, ⟨xs, hx⟩, hst⟩ := noAfter_ends_tok e hok (mlSafe_tailOk e hml) hnb i b
+  rw [rebuildAP_after_nil ha, hx]
+  exact open_snoc_tok false xs hst.1
+
+/-- a rendering ends inside a line comment only if the trailing trivia hold one -/
+theorem rebuildAP_open {e : Expr} (hok : e.ok) (hml : e.mlSafe) (hnb : e.notBinding = true) (i : Nat) (b : Bool)
+    (h : openAfter false (e.rebuildAP false i b) = true) : ¬ lineFree e.after := by
+  obtain ⟨t, ⟨xs, hx⟩, hst⟩ := noAfter_ends_tok e hok (mlSafe_tailOk e hml) hnb i b
+  rw [rebuildAP_split hnb, hx, openAfter_append, open_snoc_tok false xs hst.1] at h
+  rcases openAfter_true false _ h with h0 | hl
+  · cases h0
+  · exact (trailP_safe (ok_after hok) i).2 hl
+
+/-- the comments after the function: safe after a closed state; open afterwards only if the last one
+    is a line comment -/
+theorem fnAfterP_scan : ∀ (fa : List Comment) (acc : List FP) (i : Nat), (∀ c ∈ fa, cOk c) → fnOk fa →
+    safeGo false acc = true → openAfter false acc = false →
+    safeGo false (fnAfterP acc fa i) = true ∧ (openAfter false (fnAfterP acc fa i) = true → ¬ lineFreeC fa)
+  | [], acc, i, _, _, hs, ho => by
+    refine ⟨hs, fun h => ?_⟩
+    simp only [fnAfterP] at h; rw [ho] at h; cases h
+  | c :: rest, acc, i, hc, hfo, hs, ho => by
+    have hc0 := hc c (List.mem_cons_self ..)
+    have hr : ∀ c' ∈ rest, cOk c' := fun c' h => hc c' (List.mem_cons_of_mem _ h)
+    have hinl : c.inline = true := by
+      cases rest with
+      | nil => exact hfo
+      | cons d r => exact hfo.1
+    have hscan : safeGo false ((acc ++ if (concat acc).getLast? == some ' ' then [] else [FP.ws [' ']]) ++ cmtP c 0) = true ∧
+        openAfter false ((acc ++ if (concat acc).getLast? == some ' ' then [] else [FP.ws [' ']]) ++ cmtP c 0) =
+          isLineTok (c.token 0) := by
+      have h1 := cmtP_scan hc0 0 []
+      simp only [List.append_nil] at h1
+      rw [List.append_assoc, safeGo_append, openAfter_append, hs, ho, Bool.true_and]
+      split
+      · simp only [List.nil_append, h1.1, h1.2, safeGo, openAfter]; exact ⟨trivial, trivial⟩
+      · simp only [List.cons_append, List.nil_append, safeGo, openAfter, stepOk_false, stepOpen_ws_false, Bool.true_and,
+          h1.1, h1.2]
+        exact ⟨trivial, trivial⟩
+    simp only [fnAfterP, hinl, if_true]
+    cases rest with
+    | nil =>
+      simp only [fnAfterP]
+      refine ⟨hscan.1, fun h => ?_⟩
+      rw [hscan.2] at h
+      exact fun hf => hf c (List.mem_cons_self ..) (token_head hc0 0 h)
+    | cons d r =>
+      have hnl : isLineTok (c.token 0) = false := by
+        cases hl : isLineTok (c.token 0) with
+        | false => rfl
+        | true => exact absurd (token_head hc0 0 hl) hfo.2.1
+      have ih := fnAfterP_scan (d :: r) _ i hr hfo.2.2 hscan.1 (by rw [hscan.2, hnl])
+      exact ⟨ih.1, fun h hf => ih.2 h (fun c' hc' => hf c' (List.mem_cons_of_mem _ hc'))⟩
 
 theorem rebuildAllP_noLine : ∀ {es : List Expr}, allOk es → allLineFree es → ∀ (i : Nat) (b : Bool),
     ∀ x ∈ rebuildAllP es i b, ¬ hasLineP x
@@ -851,10 +1009,10 @@ theorem rebuildAP_safe : (e : Expr) → e.ok → e.mlSafe → ∀ (na : Bool) (i
       · simp only [Bool.false_eq_true, if_false]
         cases hp : value.previewP vi with
         | none =>
-          obtain ⟨t, h1, h2⟩ := noAfter_ends_tok hv hml.2 vi (!false)
+          obtain ⟨t, h1, h2⟩ := noAfter_ends_tok value hv (mlSafe_tailOk value hml.1) hml.2 vi (!false)
           exact ⟨t, h1, h2, ihv true vi _⟩
         | some p => exact ihp vi p hp
-      · obtain ⟨t, h1, h2⟩ := noAfter_ends_tok hv hml.2 vi (!true)
+      · obtain ⟨t, h1, h2⟩ := noAfter_ends_tok value hv (mlSafe_tailOk value hml.1) hml.2 vi (!true)
         exact ⟨t, h1, h2, ihv true vi _⟩
     obtain ⟨t, het, hst, hsv⟩ := hval
     simp only [List.append_assoc]
@@ -862,6 +1020,89 @@ theorem rebuildAP_safe : (e : Expr) → e.ok → e.mlSafe → ∀ (na : Bool) (i
     simp only [List.cons_append, List.nil_append, (tok_then _ _).1, (ws_then _ _).1]
     rw [safe_endsTok het hst hsv, (tok_then _ _).1]
     exact hbt
+  | .paren value lg tg lb tb before after, hok, hml, na, i, b => by
+    obtain ⟨hv, hb, ha⟩ := hok
+    obtain ⟨hvm, hvnb, hvl⟩ := hml
+    have ht := (trailP_safe (ite_nil_ok na ha) i).1
+    have ihv := rebuildAP_safe value hv hvm false
+    simp only [Expr.rebuildAP, addTriviaP, List.append_assoc]
+    rw [(lines_then i hb _).1, (indentP_scan i b _).1]
+    simp only [List.cons_append, (tok_then _ _).1]
+    -- the value, then the closing parenthesis
+    have hclose : ∀ (V : List FP), safeGo false V = true → (openAfter false V = true → ¬ lineFree value.after) →
+        safeGo false ((if (Layout.fromGap tg).onNewline = true then V ++ [FP.ws (nlSep tb ++ spaces i)] else V) ++
+          (FP.tok [')'] :: trailP (if na = true then [] else after) i)) = true := by
+      intro V hV hop
+      by_cases hon : (Layout.fromGap tg).onNewline = true
+      · simp only [hon, if_true, List.append_assoc, List.cons_append, List.nil_append]
+        rw [safeGo_append, hV, Bool.true_and]
+        have hnl : startsWithNL (nlSep tb ++ spaces i) = true := by unfold nlSep; split <;> rfl
+        have hne : (nlSep tb ++ spaces i).isEmpty = false := by unfold nlSep; split <;> rfl
+        cases openAfter false V <;>
+          simp [safeGo, stepOk, stepOpen, hnl, hne, ht]
+      · have hon' : (Layout.fromGap tg).onNewline = false := by simpa using hon
+        simp only [hon', Bool.false_eq_true, if_false]
+        rw [safeGo_append, hV, Bool.true_and]
+        have : openAfter false V = false := by
+          cases ho : openAfter false V with
+          | false => rfl
+          | true => exact absurd (hvl hon') (hop ho)
+        rw [this, (tok_then _ _).1]; exact ht
+    have hV : safeGo false (if (Layout.fromGap lg).onNewline = true then
+          FP.ws (nlSep lb) :: value.rebuildAP false ((Layout.fromGap lg).indent.getD (i + 2)) false
+          else value.rebuildAP false i true) = true ∧
+        (openAfter false (if (Layout.fromGap lg).onNewline = true then
+          FP.ws (nlSep lb) :: value.rebuildAP false ((Layout.fromGap lg).indent.getD (i + 2)) false
+          else value.rebuildAP false i true) = true → ¬ lineFree value.after) := by
+      split
+      · refine ⟨?_, fun ho => ?_⟩
+        · rw [(ws_then _ _).1]; exact ihv _ _
+        · rw [(ws_then _ _).2] at ho
+          exact rebuildAP_open hv hvm hvnb _ _ ho
+      · exact ⟨ihv _ _, fun ho => rebuildAP_open hv hvm hvnb _ _ ho⟩
+    revert hV
+    generalize (if (Layout.fromGap lg).onNewline = true then
+          FP.ws (nlSep lb) :: value.rebuildAP false ((Layout.fromGap lg).indent.getD (i + 2)) false
+          else value.rebuildAP false i true) = V
+    intro hV
+    simp only [List.nil_append]
+    exact hclose V hV.1 hV.2
+  | .app name arg g fa before after, hok, hml, na, i, b => by
+    obtain ⟨hn, hx, hfa, hb, ha⟩ := hok
+    obtain ⟨hnm, hxm, hnnb, hxnb, hna, hxa, hfo, hfl⟩ := hml
+    have ht := (trailP_safe (ite_nil_ok na ha) i).1
+    have hf := fnAfterP_scan fa (name.rebuildAP false i true) i hfa hfo (rebuildAP_safe name hn hnm false i true)
+      (closed_of_after_nil hn hnm hnnb hna i true)
+    simp only [Expr.rebuildAP, addTriviaP, List.append_assoc]
+    rw [(lines_then i hb _).1, (indentP_scan i b _).1]
+    rw [safeGo_append, hf.1, Bool.true_and]
+    generalize hon : (Layout.fromGap g).onNewline = on at hfl
+    generalize (if on = true then (Layout.fromGap g).indent.getD (i + 2) else i) = ai
+    have hargs : safeGo false (arg.rebuildAP false ai (!on)) = true := rebuildAP_safe arg hx hxm false ai (!on)
+    have hclosed := closed_of_after_nil hx hxm hxnb hxa ai (!on)
+    -- the separator: a line break whenever a line comment is open
+    have hsep : ∀ tl, safeGo false tl = true →
+        safeGo (openAfter false (fnAfterP (name.rebuildAP false i true) fa i))
+          (FP.ws (if (Layout.fromGap g).blankLine = true then ['\n', '\n'] else if on = true then ['\n'] else [' ']) :: tl) = true := by
+      intro tl htl
+      cases ho : openAfter false (fnAfterP (name.rebuildAP false i true) fa i) with
+      | false =>
+        by_cases hbl : (Layout.fromGap g).blankLine = true <;> cases on <;>
+          simp [hbl, safeGo, stepOk, stepOpen, htl]
+      | true =>
+        have hon1 : on = true := by
+          cases on with
+          | true => rfl
+          | false => exact absurd (hfl rfl) (hf.2 ho)
+        subst hon1
+        by_cases hbl : (Layout.fromGap g).blankLine = true <;>
+          simp [hbl, safeGo, stepOk, stepOpen, startsWithNL, htl]
+    simp only [List.cons_append]
+    refine hsep _ ?_
+    rw [safeGo_append]
+    split
+    · simp only [(ws_then _ _).1, (ws_then _ _).2, hargs, hclosed, Bool.true_and]; exact ht
+    · simp only [hargs, hclosed, Bool.true_and]; exact ht
 theorem rebuildAllP_safe : (es : List Expr) → allOk es → allMlSafe es → ∀ (i : Nat) (b : Bool),
     ∀ x ∈ rebuildAllP es i b, safeGo false x = true
   | [], _, _, _, _, x, hx => by cases hx
@@ -875,6 +1116,8 @@ theorem previewP_safe : (e : Expr) → e.ok → e.mlSafe → ∀ (i : Nat) (p : 
   | .leaf .., _, _, i, p, h => by simp [Expr.previewP] at h
   | .set .., _, _, i, p, h => by simp [Expr.previewP] at h
   | .binding .., _, _, i, p, h => by simp [Expr.previewP] at h
+  | .paren .., _, _, i, p, h => by simp [Expr.previewP] at h
+  | .app .., _, _, i, p, h => by simp [Expr.previewP] at h
   | .list value ml inner before after, hok, hml, i, p, h => by
     obtain ⟨hv, hin, hb, ha⟩ := hok
     refine ⟨[']'], ?_, solidT_lit ']' (by decide), ?_⟩
@@ -1011,6 +1254,8 @@ def Cst.noLineC : Cst → Bool
   | .leaf _ _ => true
   | .list its _ => its.noLineI
   | .set _ _ its _ => its.noLineI
+  | .paren its _ => its.noLineI
+  | .app f cs _ a => f.noLineC && gcNoLine cs && a.noLineC
 def Items.noLineI : Items → Bool
   | .nil => true
   | .cmt _ t rest => !isLineCmt t && rest.noLineI
@@ -1081,6 +1326,22 @@ theorem cst_noLine_of_noNL : (c : Cst) → c.wf = true → containsNL c.flatten 
         simpa using hn
       exact (containsNL_append_false (containsNL_append_false (containsNL_append_false h1).2).2).1
     exact items_noLine_of_noNL its .set cg hwf.1.2 (by decide) this
+  | .paren its cg, hwf, hn => by
+    simp only [Cst.wf, Bool.and_eq_true] at hwf
+    simp only [Cst.flatten] at hn
+    have : containsNL (its.flatten ++ cg) = false := by
+      have h1 : containsNL (['('] ++ ((its.flatten ++ cg) ++ [')'])) = false := by simpa using hn
+      exact (containsNL_append_false (containsNL_append_false h1).2).1
+    exact items_noLine_of_noNL its .paren cg hwf.1.1 (by decide) this
+  | .app f cs g a, hwf, hn => by
+    simp only [Cst.wf, Bool.and_eq_true] at hwf
+    obtain ⟨⟨⟨hfw, hcs⟩, _⟩, haw⟩ := hwf
+    have h1 : containsNL (f.flatten ++ ((flattenGC cs ++ g) ++ a.flatten)) = false := by
+      simpa [Cst.flatten, List.append_assoc] using hn
+    have h2 := containsNL_append_false h1
+    have h3 := containsNL_append_false h2.2
+    simp only [Cst.noLineC, Bool.and_eq_true]
+    exact ⟨⟨cst_noLine_of_noNL f hfw h2.1, gcNoLine_of_noNL cs g hcs h3.1⟩, cst_noLine_of_noNL a haw h3.2⟩
 theorem items_noLine_of_noNL : (its : Items) → ∀ (m : Mode) (cg : Text), its.wf m cg = true → m ≠ .file →
     containsNL (its.flatten ++ cg) = false → its.noLineI = true
   | .nil, _, _, _, _, _ => rfl
@@ -1162,19 +1423,14 @@ theorem gcTrivia_lineFree : ∀ (cs : GC) (acc : List Trivia) (next : Text), gcO
 
 /-! lineFreeE / mlSafe under the field updates of the parser -/
 
-theorem lineFreeE_after {e : Expr} (h : e.lineFreeE) : lineFree e.after := by
-  cases e with
-  | leaf k t b a => exact h.2
-  | list v m inn b a => exact h.2.2.2
-  | set v m r inn b a => exact h.2.2.2
-  | binding n v g b a => exact h.2.2
-
 theorem lineFreeE_setBefore {e : Expr} (h : e.lineFreeE) {b : List Trivia} (hb : lineFree b) : (e.setBefore b).lineFreeE := by
   cases e with
   | leaf k t b' a => exact ⟨hb, h.2⟩
   | list v m inn b' a => exact ⟨h.1, h.2.1, hb, h.2.2.2⟩
   | set v m r inn b' a => exact ⟨h.1, h.2.1, hb, h.2.2.2⟩
   | binding n v g b' a => exact ⟨h.1, hb, h.2.2⟩
+  | paren v lg tg lb tb b' a => exact ⟨h.1, hb, h.2.2⟩
+  | app n x g fa b' a => exact ⟨h.1, h.2.1, h.2.2.1, hb, h.2.2.2.2⟩
 
 theorem lineFreeE_addAfter {e : Expr} (h : e.lineFreeE) {a : List Trivia} (ha : lineFree a) : (e.addAfter a).lineFreeE := by
   have haa := lineFree_append.mpr ⟨lineFreeE_after h, ha⟩
@@ -1183,6 +1439,8 @@ theorem lineFreeE_addAfter {e : Expr} (h : e.lineFreeE) {a : List Trivia} (ha : 
   | list v m inn b a' => exact ⟨h.1, h.2.1, h.2.2.1, haa⟩
   | set v m r inn b a' => exact ⟨h.1, h.2.1, h.2.2.1, haa⟩
   | binding n v g b a' => exact ⟨h.1, h.2.1, haa⟩
+  | paren v lg tg lb tb b a' => exact ⟨h.1, h.2.1, haa⟩
+  | app n x g fa b a' => exact ⟨h.1, h.2.1, h.2.2.1, h.2.2.2.1, haa⟩
 
 theorem mlSafe_setBefore {e : Expr} (h : e.mlSafe) (b : List Trivia) : (e.setBefore b).mlSafe := by
   cases e <;> exact h
@@ -1260,6 +1518,8 @@ theorem lineFreeE_before {e : Expr} (h : e.lineFreeE) : lineFree e.before := by
   | list v m inn b a => exact h.2.2.1
   | set v m r inn b a => exact h.2.2.1
   | binding n v g b a => exact h.2.1
+  | paren v lg tg lb tb b a => exact h.2.1
+  | app n x g fa b a => exact h.2.2.2.1
 
 theorem binding_inv {n : Text} {c1 c2 c3 : GC} {g1 g2 g3 : Text} {ve b : Expr} {before : List Trivia}
     (h1 : gcOk c1 g1 = true) (h2 : gcOk c2 g2 = true) (h3 : gcOk c3 g3 = true)
@@ -1332,6 +1592,184 @@ theorem leafFromCst_shape {k : LeafKind} {t : Text} {e : Expr} (h : leafFromCst 
   | str => simp only [leafFromCst] at h; injection h with h; exact ⟨_, _, h.symm⟩
   | path => simp only [leafFromCst] at h; injection h with h; exact ⟨_, _, h.symm⟩
 
+/-! parentheses and calls: what the parser guarantees about trailing trivia -/
+
+theorem modifyLast_all {P : Expr → Prop} (f : Expr → Expr) (hf : ∀ e, P e → P (f e)) :
+    ∀ (items : List Expr), (∀ e ∈ items, P e) → ∀ e ∈ modifyLast f items, P e
+  | [], _, e, he => by cases he
+  | [x], h, e, he => by
+    simp only [modifyLast, List.mem_singleton] at he; subst he; exact hf x (h x (List.mem_cons_self ..))
+  | x :: y :: rest, h, e, he => by
+    rw [modifyLast, List.mem_cons] at he
+    rcases he with rfl | he
+    · exact h _ (List.mem_cons_self ..)
+    · exact modifyLast_all f hf (y :: rest) (fun e' he' => h e' (List.mem_cons_of_mem _ he')) e he
+
+theorem seqComment_items_all {P : Expr → Prop} (m : Mode) (st : SeqSt) (g t : Text)
+    (hadd : ∀ e, P e → P (e.addAfter [.comment (mkComment t true)])) (h : ∀ e ∈ st.items, P e) :
+    ∀ e ∈ (seqComment m st g t).items, P e := by
+  unfold seqComment; split
+  · exact modifyLast_all _ hadd _ h
+  · exact h
+
+theorem finishSeq_none_all {P : Expr → Prop} (st : SeqSt) (hc : Bool) (h : ∀ e ∈ st.items, P e)
+    (hadd : ∀ e, P e → P (e.addAfter st.before)) : ∀ e ∈ (finishSeq st none hc).1, P e := by
+  unfold finishSeq
+  by_cases hb : st.before.isEmpty = true
+  · simp only [hb, if_true]; exact h
+  · by_cases hi : st.items.isEmpty = true
+    · simp only [hb, hi, if_true, Bool.false_eq_true, if_false]; intro e he; cases he
+    · simp only [hb, hi, Bool.false_eq_true, if_false]; exact modifyLast_all _ hadd _ h
+
+theorem lineFree_after_addAfter {e : Expr} {a : List Trivia} (h : lineFree e.after) (ha : lineFree a) :
+    lineFree (e.addAfter a).after := by
+  rw [after_addAfter]; exact lineFree_append.mpr ⟨h, ha⟩
+
+/-- the comments after the value of a parenthesis, when none of them is a line comment -/
+theorem paren_tail : ∀ (its : Items) (cg : Text) (st st' : SeqSt), its.wf .paren cg = true →
+    its.parseSeq .paren st = .ok st' → its.countElems = 0 → its.noLineI = true →
+    (∀ e ∈ st.items, lineFree e.after) → lineFree st.before →
+    (∀ e ∈ st'.items, lineFree e.after) ∧ lineFree st'.before
+  | .nil, _, st, st', _, hp, _, _, h1, h2 => by
+    simp only [Items.parseSeq] at hp; injection hp with hp; subst hp; exact ⟨h1, h2⟩
+  | .cmt g t rest, cg, st, st', hwf, hp, hc, hnl, h1, h2 => by
+    simp only [Items.wf, Bool.and_eq_true] at hwf
+    simp only [Items.parseSeq] at hp
+    simp only [Items.noLineI, Bool.and_eq_true, Bool.not_eq_true'] at hnl
+    have hblk := fun b => mkComment_block hwf.1.1.2 hnl.1 b
+    refine paren_tail rest cg _ st' hwf.2 hp (by simpa [Items.countElems] using hc) hnl.2
+      (seqComment_items_all _ _ _ _ (fun e he => lineFree_after_addAfter he (lineFree_comment (hblk true))) h1) ?_
+    unfold seqComment; split
+    · exact lineFree_pushGap h2 g
+    · exact lineFree_append.mpr ⟨lineFree_pushGap h2 g, lineFree_comment (hblk false)⟩
+  | .elem g c rest, _, _, _, _, _, hc, _, _, _ => by simp [Items.countElems] at hc
+  | .bind .., _, _, _, hwf, _, _, _, _, _ => by simp [Items.wf] at hwf
+
+/-- the value of a parenthesis whose closing token is on the row the last content ends on -/
+theorem paren_after : ∀ (its : Items) (cg : Text) (st st' : SeqSt), its.wf .paren cg = true →
+    its.parseSeq .paren st = .ok st' → its.countElems = 1 → st.items = [] →
+    containsNL (its.postElem ++ cg) = false →
+    (∀ e ∈ st'.items, lineFree e.after) ∧ lineFree st'.before
+  | .nil, _, _, _, _, _, hc, _, _ => by simp [Items.countElems] at hc
+  | .cmt g t rest, cg, st, st', hwf, hp, hc, hi, hn => by
+    simp only [Items.wf, Bool.and_eq_true] at hwf
+    simp only [Items.parseSeq] at hp
+    refine paren_after rest cg _ st' hwf.2 hp (by simpa [Items.countElems] using hc) ?_ (by simpa [Items.postElem] using hn)
+    unfold seqComment canInline
+    simp [hi]
+  | .elem g c rest, cg, st, st', hwf, hp, hc, hi, hn => by
+    simp only [Items.wf, Bool.and_eq_true] at hwf
+    simp only [Items.parseSeq] at hp
+    obtain ⟨e, hpe, _, _, hea, _⟩ := cst_parse_spec false c hwf.1.2 (fun h => by cases h)
+    rw [hpe] at hp
+    simp only at hp
+    have hnl : rest.noLineI = true :=
+      items_noLine_of_noNL rest .paren cg hwf.2 (by decide) (by simpa [Items.postElem] using hn)
+    refine paren_tail rest cg _ st' hwf.2 hp (by simpa [Items.countElems] using hc) hnl ?_ lineFree_nil
+    intro e' he'
+    rw [hi] at he'
+    simp only [List.nil_append, List.mem_singleton] at he'
+    subst he'
+    rw [after_setBefore, hea]; exact lineFree_nil
+  | .bind .., _, _, _, hwf, _, _, _, _ => by simp [Items.wf] at hwf
+
+theorem fromGap_onNewline_eq (g : Text) : (Layout.fromGap g).onNewline = containsNL g := by
+  unfold Layout.fromGap; split <;> simp_all
+
+theorem lineFree_trimLeading {ts : List Trivia} (h : lineFree ts) : lineFree (trimLeadingLayoutTrivia ts) := by
+  intro c hc
+  exact h c ((List.dropWhile_sublist _).subset hc)
+
+theorem gcTrivia_lineFree' : ∀ (cs : GC) (acc : List Trivia),
+    (∀ p ∈ cs, isCommentTok p.2 = true ∧ isLineCmt p.2 = false) → lineFree acc → lineFree (gcTrivia acc cs)
+  | [], acc, _, ha => ha
+  | p :: rest, acc, h, ha => by
+    have hp := h p (List.mem_cons_self ..)
+    rw [gcTrivia]
+    exact gcTrivia_lineFree' rest _ (fun q hq => h q (List.mem_cons_of_mem _ hq))
+      (lineFree_append.mpr ⟨lineFree_appendGap ha _ _, lineFree_comment (mkComment_block hp.1 hp.2 false)⟩)
+
+/-- a line comment ends the row: nothing after it is on the function's row -/
+theorem appSplit_line_last {p : Text × Text} {cs : GC} {next : Text} (h : gcOk (p :: cs) next = true)
+    (hl : isLineCmt p.2 = true) (f sr : Bool) (pend : Text) : (appSplit cs f sr pend).inl = [] := by
+  cases cs with
+  | nil => rfl
+  | cons q cs' =>
+    simp only [gcOk, Bool.and_eq_true] at h
+    have hc := h.1.2
+    unfold closedBy at hc
+    simp only [hl, Bool.not_true, Bool.false_or, Bool.false_and, Bool.or_false] at hc
+    have hnl := containsNL_of_startsWithNL hc
+    simp only [appSplit, hnl, Bool.not_true, Bool.and_false, Bool.false_and, Bool.false_eq_true, if_false]
+    exact appSplit_inl_nil cs' false []
+
+theorem appSplit_fnOk : ∀ (cs : GC) (first sr : Bool) (pend next : Text), gcOk cs next = true →
+    fnOk ((appSplit cs first sr pend).inl.map fun t => mkComment t true)
+  | [], _, _, _, _, _ => trivial
+  | p :: cs, first, sr, pend, next, h => by
+    obtain ⟨hp, hrest⟩ := gcOk_tail h
+    simp only [appSplit]
+    split
+    · have ih := appSplit_fnOk cs false (sr && !containsNL p.1) (pend ++ p.1 ++ p.2) next hrest
+      simp only [List.map_cons]
+      cases hr : (appSplit cs false (sr && !containsNL p.1) (pend ++ p.1 ++ p.2)).inl with
+      | nil => exact rfl
+      | cons d r =>
+        rw [hr] at ih
+        refine ⟨rfl, ?_, ih⟩
+        by_cases hl : isLineCmt p.2 = true
+        · have := appSplit_line_last h hl false (sr && !containsNL p.1) (pend ++ p.1 ++ p.2)
+          rw [hr] at this; cases this
+        · exact mkComment_block hp (by simpa using hl) true
+    · exact appSplit_fnOk cs false (sr && !containsNL p.1) [] next hrest
+
+theorem gcNoLine_all : ∀ (cs : GC), gcNoLine cs = true → ∀ p ∈ cs, isLineCmt p.2 = false := by
+  intro cs h p hp
+  have := (List.all_eq_true.mp h) p hp
+  simpa using this
+
+/-- `FunctionCall.from_cst`: the invariants of the renderer -/
+theorem app_inv {fe ae : Expr} {cs : GC} {g : Text} (hcs : gcOk cs g = true)
+    (hfm : fe.mlSafe) (hfnb : fe.notBinding = true) (hfa : fe.after = [])
+    (ham : ae.mlSafe) (hanb : ae.notBinding = true) (haa : ae.after = []) :
+    (appFromCst fe ae cs g).mlSafe ∧
+    (fe.lineFreeE → gcNoLine cs = true → ae.lineFreeE → (appFromCst fe ae cs g).lineFreeE) := by
+  have hall := gcOk_all cs g hcs
+  unfold appFromCst
+  refine ⟨⟨hfm, mlSafe_setBefore ham _, hfnb, by rw [notBinding_setBefore]; exact hanb, hfa,
+    by rw [after_setBefore]; exact haa, appSplit_fnOk cs true true [] g hcs, fun hon => ?_⟩, fun hf hg ha => ?_⟩
+  · rw [fromGap_onNewline_eq] at hon
+    have hg := gcNoLine_all cs (gcNoLine_of_noNL cs g hcs hon)
+    have hmem := appSplit_mem (fun t => isCommentTok t = true ∧ isLineCmt t = false) cs true true []
+      (fun p hp => ⟨hall p hp, hg p hp⟩)
+    intro c hc
+    obtain ⟨t, ht, rfl⟩ := List.mem_map.mp hc
+    exact mkComment_block (hmem.1 t ht).1 (hmem.1 t ht).2 true
+  · have hgl := gcNoLine_all cs hg
+    have hmem := appSplit_mem (fun t => isCommentTok t = true ∧ isLineCmt t = false) cs true true []
+      (fun p hp => ⟨hall p hp, hgl p hp⟩)
+    have hba : lineFree (appBeforeArg (appSplit cs true true []) g) := by
+      unfold appBeforeArg
+      split
+      · exact lineFree_nil
+      · refine lineFree_append.mpr ⟨gcTrivia_lineFree' _ _ hmem.2 lineFree_nil, ?_⟩
+        split
+        · exact lineFree_single_layout rfl
+        · exact lineFree_nil
+    have hbf : lineFree (appBeforeArg (appSplit cs true true []) g ++ ae.before) :=
+      lineFree_append.mpr ⟨hba, lineFreeE_before ha⟩
+    refine ⟨hf, lineFreeE_setBefore ha ?_, ?_, lineFree_nil, lineFree_nil⟩
+    · split
+      · exact lineFree_trimLeading hbf
+      · exact hbf
+    · intro c hc
+      obtain ⟨t, ht, rfl⟩ := List.mem_map.mp hc
+      exact mkComment_block (hmem.1 t ht).1 (hmem.1 t ht).2 true
+
+theorem seqComment_notBinding (m : Mode) (st : SeqSt) (g t : Text) (h : ∀ e ∈ st.items, e.notBinding = true) :
+    ∀ e ∈ (seqComment m st g t).items, e.notBinding = true :=
+  seqComment_items_all m st g t (fun e he => by rw [notBinding_addAfter]; exact he) h
+
 mutual
 theorem cst_parse_inv : (c : Cst) → c.wf = true → ∀ (e : Expr), c.parse = .ok e →
     e.mlSafe ∧ e.notBinding = true ∧ (c.noLineC = true → e.lineFreeE)
@@ -1352,9 +1790,9 @@ theorem cst_parse_inv : (c : Cst) → c.wf = true → ∀ (e : Expr), c.parse = 
       refine ⟨⟨hf.1, fun hml => ?_⟩, rfl, fun hnl => ?_⟩
       · have hnl : its.noLineI = true :=
           cst_noLine_of_noNL (.list its cg) (by simp [Cst.wf, hwf.1, hwf.2]) (by simpa [Cst.flatten] using hml)
-        have := hinv.2 hnl trivial (openBefore_lineFree its)
+        have := hinv.2.1 hnl trivial (openBefore_lineFree its)
         exact (hf.2 this.1 this.2).1
-      · have := hinv.2 hnl trivial (openBefore_lineFree its)
+      · have := hinv.2.1 hnl trivial (openBefore_lineFree its)
         have h2 := hf.2 this.1 this.2
         exact ⟨h2.1, emptyInner_lineFree h2.2 _, lineFree_nil, lineFree_nil⟩
   | .set isRec rg its cg, hwf, e, hp => by
@@ -1370,27 +1808,71 @@ theorem cst_parse_inv : (c : Cst) → c.wf = true → ∀ (e : Expr), c.parse = 
       have hf := finishSeq_inv st' (some cg) (!its.isNil) hinv.1
       refine ⟨⟨hf.1, fun hml => ?_⟩, rfl, fun hnl => ?_⟩
       · have hnl : its.noLineI = true := cst_noLine_of_noNL (.set isRec rg its cg) hwf0 (by simpa using hml)
-        have := hinv.2 hnl trivial (openBefore_lineFree its)
+        have := hinv.2.1 hnl trivial (openBefore_lineFree its)
         exact (hf.2 this.1 this.2).1
-      · have := hinv.2 hnl trivial (openBefore_lineFree its)
+      · have := hinv.2.1 hnl trivial (openBefore_lineFree its)
         have h2 := hf.2 this.1 this.2
         exact ⟨h2.1, emptyInner_lineFree h2.2 _, lineFree_nil, lineFree_nil⟩
+  | .paren its cg, hwf, e, hp => by
+    simp only [Cst.wf, Bool.and_eq_true, beq_iff_eq] at hwf
+    simp only [Cst.parse] at hp
+    cases hps : its.parseSeq .paren {} with
+    | error err => rw [hps] at hp; cases hp
+    | ok st' =>
+      rw [hps] at hp
+      simp only at hp
+      have hinv := items_parse_inv its .paren cg {} st' hwf.1.1 hps trivial
+      have hf := finishSeq_inv st' none (!its.isNil) hinv.1
+      have hnb := finishSeq_none_all (P := fun e => e.notBinding = true) st' (!its.isNil)
+        (hinv.2.2 (by decide) (fun e he => by cases he)) (fun e he => by rw [notBinding_addAfter]; exact he)
+      cases hr : (finishSeq st' none (!its.isNil)).1 with
+      | nil => rw [hr] at hp; cases hp
+      | cons v tl =>
+        cases tl with
+        | cons w tl' => rw [hr] at hp; cases hp
+        | nil =>
+          rw [hr] at hp hf hnb
+          injection hp with hp; subst hp
+          refine ⟨⟨hf.1.1, hnb v (List.mem_cons_self ..), fun hon => ?_⟩, rfl, fun hnl => ?_⟩
+          · rw [fromGap_onNewline_eq] at hon
+            have hq := paren_after its cg {} st' hwf.1.1 hps hwf.1.2 rfl hon
+            have := finishSeq_none_all (P := fun e => lineFree e.after) st' (!its.isNil) hq.1
+              (fun e he => lineFree_after_addAfter he hq.2)
+            rw [hr] at this
+            exact this v (List.mem_cons_self ..)
+          · have h1 := hinv.2.1 hnl trivial lineFree_nil
+            have h2 := hf.2 h1.1 h1.2
+            exact ⟨h2.1.1, lineFree_nil, lineFree_nil⟩
+  | .app f cs g a, hwf, e, hp => by
+    simp only [Cst.wf, Bool.and_eq_true] at hwf
+    obtain ⟨⟨⟨hfw, hcs⟩, _⟩, haw⟩ := hwf
+    obtain ⟨fe, hpf, _, _, hfa, _⟩ := cst_parse_spec false f hfw (fun h => by cases h)
+    obtain ⟨ae, hpa, _, _, haa, _⟩ := cst_parse_spec false a haw (fun h => by cases h)
+    simp only [Cst.parse, hpf, hpa] at hp
+    injection hp with hp; subst hp
+    have hif := cst_parse_inv f hfw fe hpf
+    have hia := cst_parse_inv a haw ae hpa
+    have hai := app_inv hcs hif.1 hif.2.1 hfa hia.1 hia.2.1 haa
+    refine ⟨hai.1, rfl, fun hnl => ?_⟩
+    simp only [Cst.noLineC, Bool.and_eq_true] at hnl
+    exact hai.2 (hif.2.2 hnl.1.1) hnl.1.2 (hia.2.2 hnl.2)
 theorem items_parse_inv : (its : Items) → ∀ (m : Mode) (cg : Text) (st st' : SeqSt), its.wf m cg = true →
     its.parseSeq m st = .ok st' → allMlSafe st.items →
     allMlSafe st'.items ∧ (its.noLineI = true → allLineFree st.items → lineFree st.before →
-      allLineFree st'.items ∧ lineFree st'.before)
+      allLineFree st'.items ∧ lineFree st'.before) ∧
+    (m ≠ .set → (∀ e ∈ st.items, e.notBinding = true) → ∀ e ∈ st'.items, e.notBinding = true)
   | .nil, m, cg, st, st', _, hp, hml => by
     simp only [Items.parseSeq] at hp; injection hp with hp; subst hp
-    exact ⟨hml, fun _ h1 h2 => ⟨h1, h2⟩⟩
+    exact ⟨hml, fun _ h1 h2 => ⟨h1, h2⟩, fun _ h => h⟩
   | .cmt g t rest, m, cg, st, st', hwf, hp, hml => by
     simp only [Items.wf, Bool.and_eq_true] at hwf
     simp only [Items.parseSeq] at hp
     have hc := seqComment_inv m st g t hwf.1.1.2 hml
     have ih := items_parse_inv rest m cg _ st' hwf.2 hp hc.1
-    refine ⟨ih.1, fun hnl h1 h2 => ?_⟩
+    refine ⟨ih.1, fun hnl h1 h2 => ?_, fun hm hnb => ih.2.2 hm (seqComment_notBinding m st g t hnb)⟩
     simp only [Items.noLineI, Bool.and_eq_true, Bool.not_eq_true'] at hnl
     have := hc.2 hnl.1 h1 h2
-    exact ih.2 hnl.2 this.1 this.2
+    exact ih.2.1 hnl.2 this.1 this.2
   | .elem g c rest, m, cg, st, st', hwf, hp, hml => by
     simp only [Items.wf, Bool.and_eq_true] at hwf
     simp only [Items.parseSeq] at hp
@@ -1405,19 +1887,37 @@ theorem items_parse_inv : (its : Items) → ∀ (m : Mode) (cg : Text) (st st' :
         simp only at hp
         have ih := items_parse_inv rest .file cg _ st' hwf.2 hp
           (allMlSafe_append hml ⟨mlSafe_setBefore hce.1 _, trivial⟩)
-        refine ⟨ih.1, fun hnl h1 h2 => ?_⟩
-        simp only [Items.noLineI, Bool.and_eq_true] at hnl
-        have he := hce.2.2 hnl.1
-        exact ih.2 hnl.2 (allLineFree_append h1 ⟨lineFreeE_setBefore he
-          (lineFree_append.mpr ⟨lineFree_pushGap h2 g, lineFreeE_before he⟩), trivial⟩) lineFree_nil
+        refine ⟨ih.1, fun hnl h1 h2 => ?_, fun hm hnb => ih.2.2 hm (fun e' he' => ?_)⟩
+        · simp only [Items.noLineI, Bool.and_eq_true] at hnl
+          have he := hce.2.2 hnl.1
+          exact ih.2.1 hnl.2 (allLineFree_append h1 ⟨lineFreeE_setBefore he
+            (lineFree_append.mpr ⟨lineFree_pushGap h2 g, lineFreeE_before he⟩), trivial⟩) lineFree_nil
+        · rcases List.mem_append.mp he' with h | h
+          · exact hnb e' h
+          · simp only [List.mem_singleton] at h; subst h; rw [notBinding_setBefore]; exact hce.2.1
+      | paren =>
+        simp only at hp
+        have ih := items_parse_inv rest .paren cg _ st' hwf.2 hp
+          (allMlSafe_append hml ⟨mlSafe_setBefore hce.1 _, trivial⟩)
+        refine ⟨ih.1, fun hnl h1 h2 => ?_, fun hm hnb => ih.2.2 hm (fun e' he' => ?_)⟩
+        · simp only [Items.noLineI, Bool.and_eq_true] at hnl
+          have he := hce.2.2 hnl.1
+          exact ih.2.1 hnl.2 (allLineFree_append h1 ⟨lineFreeE_setBefore he
+            (lineFree_append.mpr ⟨lineFree_pushGap h2 g, lineFreeE_before he⟩), trivial⟩) lineFree_nil
+        · rcases List.mem_append.mp he' with h | h
+          · exact hnb e' h
+          · simp only [List.mem_singleton] at h; subst h; rw [notBinding_setBefore]; exact hce.2.1
       | list =>
         simp only at hp
         have ih := items_parse_inv rest .list cg _ st' hwf.2 hp
           (allMlSafe_append hml ⟨mlSafe_setBefore hce.1 _, trivial⟩)
-        refine ⟨ih.1, fun hnl h1 h2 => ?_⟩
-        simp only [Items.noLineI, Bool.and_eq_true] at hnl
-        have he := hce.2.2 hnl.1
-        exact ih.2 hnl.2 (allLineFree_append h1 ⟨lineFreeE_setBefore he (lineFree_pushGap h2 g), trivial⟩) lineFree_nil
+        refine ⟨ih.1, fun hnl h1 h2 => ?_, fun hm hnb => ih.2.2 hm (fun e' he' => ?_)⟩
+        · simp only [Items.noLineI, Bool.and_eq_true] at hnl
+          have he := hce.2.2 hnl.1
+          exact ih.2.1 hnl.2 (allLineFree_append h1 ⟨lineFreeE_setBefore he (lineFree_pushGap h2 g), trivial⟩) lineFree_nil
+        · rcases List.mem_append.mp he' with h | h
+          · exact hnb e' h
+          · simp only [List.mem_singleton] at h; subst h; rw [notBinding_setBefore]; exact hce.2.1
   | .bind g n c1 g1 c2 g2 v c3 g3 rest, m, cg, st, st', hwf, hp, hml => by
     simp only [Items.wf, Bool.and_eq_true, beq_iff_eq] at hwf
     obtain ⟨⟨⟨⟨⟨⟨⟨⟨⟨⟨hm, _⟩, _⟩, h1⟩, _⟩, h2⟩, _⟩, hv⟩, h3⟩, _⟩, hrest⟩ := hwf
@@ -1436,70 +1936,11 @@ theorem items_parse_inv : (its : Items) → ∀ (m : Mode) (cg : Text) (st st' :
         simp only at hp
         have hbi := binding_inv (g1 := g1) (g2 := g2) (g3 := g3) h1 h2 h3 hb hcv.1 hcv.2.1
         have ih := items_parse_inv rest .set cg _ st' hrest hp (allMlSafe_append hml ⟨hbi.1, trivial⟩)
-        refine ⟨ih.1, fun hnl a1 a2 => ?_⟩
+        refine ⟨ih.1, fun hnl a1 a2 => ?_, fun hm _ => absurd rfl hm⟩
         simp only [Items.noLineI, Bool.and_eq_true] at hnl
         obtain ⟨⟨⟨⟨n1, n2⟩, nv⟩, n3⟩, nr⟩ := hnl
-        exact ih.2 nr (allLineFree_append a1 ⟨hbi.2 n1 n2 n3 (hcv.2.2 nv) (lineFree_pushGap a2 g), trivial⟩) lineFree_nil
+        exact ih.2.1 nr (allLineFree_append a1 ⟨hbi.2 n1 n2 n3 (hcv.2.2 nv) (lineFree_pushGap a2 g), trivial⟩) lineFree_nil
 end
-
-theorem modifyLast_length {α : Type} (f : α → α) : ∀ (l : List α), (modifyLast f l).length = l.length
-  | [] => rfl
-  | [_] => rfl
-  | x :: y :: rest => by simp [modifyLast, modifyLast_length f (y :: rest)]
-
-theorem seqComment_length (m : Mode) (st : SeqSt) (g t : Text) : (seqComment m st g t).items.length = st.items.length := by
-  unfold seqComment; split
-  · exact modifyLast_length _ _
-  · rfl
-
-/-- the loop appends one item per element / binding -/
-theorem items_parse_count : (its : Items) → ∀ (m : Mode) (st st' : SeqSt), its.parseSeq m st = .ok st' →
-    m = .file → st'.items.length = st.items.length + its.countElems
-  | .nil, m, st, st', hp, _ => by
-    simp only [Items.parseSeq] at hp; injection hp with hp; subst hp; simp [Items.countElems]
-  | .cmt g t rest, m, st, st', hp, hm => by
-    simp only [Items.parseSeq] at hp
-    rw [items_parse_count rest m _ st' hp hm, seqComment_length]; simp [Items.countElems]
-  | .elem g c rest, m, st, st', hp, hm => by
-    subst hm
-    simp only [Items.parseSeq] at hp
-    cases hpe : c.parse with
-    | error err => rw [hpe] at hp; cases hp
-    | ok e =>
-      rw [hpe] at hp
-      simp only at hp
-      rw [items_parse_count rest .file _ st' hp rfl]
-      simp [Items.countElems]; omega
-  | .bind g n c1 g1 c2 g2 v c3 g3 rest, m, st, st', hp, hm => by
-    subst hm
-    simp only [Items.parseSeq] at hp
-    cases hpv : v.parse with
-    | error err => rw [hpv] at hp; cases hp
-    | ok ve => rw [hpv] at hp; cases hp
-
-theorem finishSeq_length (st : SeqSt) (cgo : Option Text) (hc : Bool) :
-    (finishSeq st cgo hc).1.length = st.items.length := by
-  have stage1 : ∃ items inner, (if st.before.isEmpty then (st.items, []) else if st.items.isEmpty then ([], st.before)
-        else (modifyLast (fun e => e.addAfter st.before) st.items, [])) = ((items, inner) : List Expr × List Trivia) ∧
-      items.length = st.items.length := by
-    by_cases hb : st.before.isEmpty = true
-    · exact ⟨st.items, [], by rw [if_pos hb], rfl⟩
-    · by_cases hi : st.items.isEmpty = true
-      · have : st.items = [] := by simpa using hi
-        exact ⟨[], st.before, by rw [if_neg hb, if_pos hi], by rw [this]⟩
-      · exact ⟨_, [], by rw [if_neg hb, if_neg hi], modifyLast_length _ _⟩
-  obtain ⟨items, inner, he, h1⟩ := stage1
-  unfold finishSeq
-  simp only [he]
-  cases cgo with
-  | none => exact h1
-  | some cg =>
-    simp only
-    split
-    · split
-      · exact h1
-      · rw [modifyLast_length]; exact h1
-    · exact h1
 
 /-- A COMMENT NEVER ABSORBS CODE, scan form: the pieces of the rebuilt file pass the safety scan. -/
 theorem file_safe (f : File) (s : Src) (hwf : f.wf = true) (hp : f.parse = .ok s) :
@@ -1514,7 +1955,7 @@ theorem file_safe (f : File) (s : Src) (hwf : f.wf = true) (hp : f.parse = .ok s
   | ok st' =>
     rw [hps] at hp
     injection hp with hp
-    have hcount := items_parse_count f.items .file {} st' hps rfl
+    have hcount := items_parse_count f.items .file {} st' hps (Or.inl rfl)
     have hinv := items_parse_inv f.items .file f.endGap {} st' hwf'.1.1 hps trivial
     have hf := finishSeq_inv st' none (!f.items.isNil) hinv.1
     have hlen := finishSeq_length st' none (!f.items.isNil)
